@@ -213,6 +213,20 @@ def eval_unit(unit, tier):
                     errs += pf["safety"] if w == "safety" else (pf.get("proof", []) if w == "proof" else pf["clauses"].get(f"{fd.fn_key}#{w}", []))
             out["findings"].append({"id": fd.fid, "props": list(fd.props), "fn": fd.fn_key, "what": fd.what,
                                     "still_fails": bool(errs), "detail": [e["rendered"] for e in errs][:3], "domain": fd.domain_requires})
+            # clauses that must hold WITHOUT the finding's envelope (they do not depend on it): an envelope must not shelter other properties
+            if fd.must_hold:
+                fobj = next((f for f in unit.fns() if f.key == fd.fn_key), None)
+                cl = {c.cid: c for c in (fobj.clauses() if fobj else [])}
+                res_ = bool(pf.get("resource"))
+                for w in fd.must_hold:
+                    c = cl.get(w)
+                    if c is None:
+                        out["status"] = "undecided"; out["reasons"].append(f"must_hold clause {w} of {fd.fid} not found"); continue
+                    e2 = pf["clauses"].get(f"{fd.fn_key}#{w}", [])
+                    verdict = "failed" if e2 else ("undecided" if (res_ or var["status"] != "ok") else "discharged")
+                    out["obligations"].append({"id": f"{unit.name}/{fd.fn_key}#{w}@{fd.fid}", "unit": unit.name, "fn": fd.fn_key, "clause": f"{w}@{fd.fid}",
+                                               "kind": c.kind, "text": c.text + f"   [re-proved without the envelope of {fd.fid}]", "props": list(c.props),
+                                               "verdict": verdict, "backend": "verus/z3", "characterisation": c.char, "detail": [e["rendered"] for e in e2]})
     out["wall_s"] = time.time() - t0
     return out
 
